@@ -467,6 +467,11 @@ void _mi_page_retire(mi_page_t* page) mi_attr_noexcept {
 
   mi_page_set_has_aligned(page, false);
 
+  // a page without a heap was abandoned while its segment is still owned by this thread (`mi_heap_delete` abandons
+  // the pages of a heap that the backing heap cannot absorb). It is in no page queue: leave it as is, it is
+  // freed (in `mi_segment_check_free`) once the segment itself is abandoned and reclaimed.
+  if mi_unlikely(mi_page_heap(page) == NULL) return;
+
   // don't retire too often..
   // (or we end up retiring and re-allocating most of the time)
   // NOTE: refine this more: we should not retire if this
